@@ -25,6 +25,7 @@ RULE = ("2..4 consumer tasks each advancing one tee child of an instrumented cla
         "child got exactly the source sequence (prefix for closed/cancelled children), no deadlock, lock free, the "
         "Cancel object itself propagated, source closed once all children are done. one evaluation = one executed "
         "schedule; distinct = distinct (scenario, schedule trace); non-trivial = schedule with >= 1 choice point")
+RULE += (' Also: cancelled consumers that abandon their child without closing it (what an async-for loop does), the child remaining a live lagging child.')
 ASSUMPTIONS = ["without a lock only non-suspending sources are claimed (as the property states)",
                "class-based cancellation-safe source: an item is consumed only after the last suspension of __anext__",
                "consumers close their child when they stop (owner closes what it advanced)"]
